@@ -25,10 +25,17 @@ def goenv():
     e.setdefault("GOCACHE", os.path.join(BUILD, "gocache"))
     return e
 
+def _cap_driver_memory():
+    # the model driver is a pure function of its input: a case that makes it need more than 12 GB of address space is
+    # a generator accident (exponential case), not something to take the machine down for
+    import resource
+    resource.setrlimit(resource.RLIMIT_AS, (12 << 30, 12 << 30))
+
 def run(cmd, cwd=None, env=None, timeout=None, inp=None):
     """run a command; returns (rc, stdout, stderr); rc=-9 on timeout"""
     try:
-        p = subprocess.run(cmd, cwd=cwd, env=env, input=inp, capture_output=True, text=True, timeout=timeout)
+        pre = _cap_driver_memory if cmd and os.path.basename(str(cmd[0])) == "ebudriver" else None
+        p = subprocess.run(cmd, cwd=cwd, env=env, input=inp, capture_output=True, text=True, timeout=timeout, preexec_fn=pre)
         return p.returncode, p.stdout, p.stderr
     except subprocess.TimeoutExpired as ex:
         so = ex.stdout.decode() if isinstance(ex.stdout, bytes) else (ex.stdout or "")
